@@ -246,3 +246,32 @@ def bounded(b):
                     if abs(float(stime_to_ptime(sb)) - mean) > 1e-4 or abs(float(ptime_to_stime(mean)) - sb) > 1e-4:
                         good, what = False, "score onset %.3f (performed mean %.4f): maps give %.4f / %.4f" % (sb, mean, float(stime_to_ptime(sb)), float(ptime_to_stime(mean)))
                 b.case("codec/time_maps_interpolate_matched_onsets_chords_by_mean", good, case, what)
+    _single_onset_maps(b)
+
+
+def _single_onset_maps(b):
+    """an alignment in which the notes of ONE score onset are matched (a chord; everything else deleted): both maps are constant, whatever
+    the type of the position they are asked for"""
+    import partitura.performance as pf
+    import partitura.musicanalysis.performance_codec as pc
+    from gen import scores as G
+    part = G.build_part("P1", 4, notes=[("n0", 0, 8, "C", None, 4, 1, 1), ("n1", 8, 8, "E", None, 4, 1, 1), ("n1b", 8, 8, "G", None, 4, 1, 1), ("n2", 16, 16, "D", None, 4, 1, 1)])
+    ppart = pf.PerformedPart([dict(id="p1", midi_pitch=64, note_on=3.6, note_off=4.0, velocity=60, track=0, channel=0), dict(id="p2", midi_pitch=67, note_on=3.8, note_off=4.1, velocity=62, track=0, channel=0)], id="PP")
+    al = [dict(label="deletion", score_id="n0"), dict(label="match", score_id="n1", performance_id="p1"), dict(label="match", score_id="n1b", performance_id="p2"), dict(label="deletion", score_id="n2")]
+    case = {"alignment": "one chord matched, everything else deleted"}
+    ok, maps = b.guard("codec/time_maps_no_exception", case, lambda: pc.get_time_maps_from_alignment(ppart, part, al))
+    if not ok:
+        return
+    p2s, s2p = maps
+    sb = float(part.beat_map(8))
+    bad = None
+    for form, q in (("int", 2), ("float", 2.0), ("numpy.int64", np.int64(2)), ("numpy.int32", np.int32(3)), ("list of ints", [1, 2, 3]), ("int array", np.array([0, 2, 5])), ("float array", np.array([0.0, 2.0]))):
+        try:
+            v = np.asarray(s2p(q), dtype=float).ravel()
+            w = np.asarray(p2s(q if not isinstance(q, (int, float)) or True else q), dtype=float).ravel()
+        except Exception as e:
+            bad = bad or "query given as %s raised %s" % (form, type(e).__name__)
+            continue
+        if any(abs(x - 3.7) > 1e-6 for x in v) or any(abs(x - sb) > 1e-6 for x in w):
+            bad = bad or "query given as %s: score->performance %r (the chord is played at 3.7 s on average), performance->score %r (the chord stands at beat %s)" % (form, v.tolist(), w.tolist(), sb)
+    b.case("codec/time_maps_interpolate_matched_onsets_chords_by_mean", bad is None, case, bad or "")
